@@ -162,7 +162,7 @@ def handle (st : St) (line : String) : St × String :=
       let r := ts.foldl (fun (acc : CacheMap String Rel × List String) t =>
         let k := fp' (key st.cfg hb' fp' g t)
         let hit := o.cacheOn && !o.force && cachedKind t.data && (lookup acc.1 k).isSome
-        let b := buildPkg st.cfg hb' fp' (fun r => r) o g acc.1 t
+        let b := buildPkg st.cfg hb' fp' (fun r => r) (fun r => r) (fun r => r) o g acc.1 t
         let fresh := relHash b.2 == relHash (relevant g t)
         (b.1, acc.2 ++ [hexS t.data.id ++ ":" ++ (if hit then "hit" else "miss") ++ ":" ++ (if fresh then "fresh" else "stale") ++ ":" ++ relHash (relevant g t) ++ ":" ++ k]))
         (st.cache, [])
